@@ -381,7 +381,7 @@ func init() {
 		Rule:        "case = round: 16 (thorough 64) goroutines released by a barrier first lex 12 heredoc inputs with many distinct delimiters on one fresh back-reference definition (every compiled-pattern cache key is first used under contention), then each performs 30-40 randomly ordered ParseString/ParseBytes/Parse/Lex/String calls on shared generated-grammar parsers, ebnf.ParseString on the package-level EBNF parser, and ParseString on the example grammars' package-level parsers. Every result (normalised AST incl. positions + error text, or token list) is compared with the same call on a fresh instance built and used in isolation before the concurrent phase; after each round 20 sequential calls re-check history independence. The binary is built with -race; every 'WARNING: DATA RACE' block in the GORACE logs is a violation. Non-trivial: an object on which operations of different goroutines overlapped in time (stamped from one atomic counter); distinct by object.",
 		Assumptions: []string{"race reports can only appear if a race exists; absence of reports is evidence for the interleavings executed only", "for package-level parsers (ebnf, examples) no fresh instance can be made: the expectation is the parser's own first isolated answer", "monitor tables are per goroutine and merged after wg.Wait()"},
 		Batches:     func(t string) int { return pick(t, 2, 5) },
-		Floor:       func(t string) int { return pick(t, 20, 40) },
+		Floor:       func(t string) int { return pick(t, 10, 20) },
 		TimeoutSec:  func(t string) int { return pick(t, 1200, 3600) },
 		Race:        true,
 		Prepare: gramPrepareEx("C09", func(t string) int { return pick(t, 30, 70) }, c09Opts, nil, true, func(dir string) error {
